@@ -147,6 +147,50 @@ if __name__ == "__main__":
         cmd_try(a[1], a[2])
     elif a[0] == "save":
         cmd_save(a[1], a[2], " ".join(a[3:]))
+    elif a[0] == "refactor-save":
+        # behaviour-preserving refactor: every check must stay silent on it
+        name = a[1]
+        d = os.path.join(SCR, name)
+        r = subprocess.run(["diff", "-ruN", "--exclude=target", "--exclude=.git", "--exclude=Cargo.lock", REPO, d], capture_output=True, text=True)
+        patch = r.stdout.replace(d + "/", "b/").replace(REPO + "/", "a/")
+        if not patch.strip():
+            sys.exit("empty diff")
+        ok, err = compiles(d)
+        if not ok:
+            print(err)
+            sys.exit("refactor does not compile")
+        os.makedirs(os.path.join(VERIF, "refactors"), exist_ok=True)
+        with open(os.path.join(VERIF, "refactors", name + ".patch"), "w") as fh:
+            fh.write(patch)
+        with open(os.path.join(VERIF, "refactors", name + ".txt"), "w") as fh:
+            fh.write(" ".join(a[2:]) + "\n")
+        shutil.rmtree(d, ignore_errors=True)
+        print("saved refactor", name)
+    elif a[0] == "refactor-run":
+        man = json.load(open(os.path.join(VERIF, "MANIFEST.json")))
+        props = [c["property_id"] for c in man["checks"]]
+        bad = 0
+        for f in sorted(os.listdir(os.path.join(VERIF, "refactors"))):
+            if not f.endswith(".patch") or (a[1:] and f[:-6] not in a[1:]):
+                continue
+            d = tempfile.mkdtemp(prefix="verif-refrun-")
+            try:
+                copy_repo(d)
+                r = subprocess.run(["patch", "-p1", "-s", "-i", os.path.join(VERIF, "refactors", f)], cwd=d, capture_output=True, text=True)
+                if r.returncode != 0:
+                    print("%-28s patch does not apply" % f[:-6])
+                    bad += 1
+                    continue
+                alarms = []
+                for p_ in props:
+                    rc, viol, out = run_check(p_, d)
+                    if rc != 0:
+                        alarms.append((p_, rc, viol[:3]))
+                print("%-28s %s" % (f[:-6], "silent on all %d checks" % len(props) if not alarms else "FALSE ALARMS: %s" % alarms), flush=True)
+                bad += 1 if alarms else 0
+            finally:
+                shutil.rmtree(d, ignore_errors=True)
+        sys.exit(1 if bad else 0)
     elif a[0] == "verify":
         # re-confirm that every stored mutant still applies and compiles (sequential: one shared target dir)
         bad = 0
